@@ -114,6 +114,7 @@ type Machine struct {
 	preempts   int
 	yieldCount int
 	poolSeq    int
+	proved     map[*term.Term]bool // conditions implied by the path condition (which only grows)
 	doneCh     chan struct{}
 	wg         sync.WaitGroup
 	aborting   bool
@@ -212,11 +213,23 @@ func (m *Machine) branch(cond *term.Term) bool {
 			} else {
 				m.addPC(m.T.Not(cond))
 			}
+		} else if c == 1 {
+			m.proved[cond] = true
+		} else {
+			m.proved[m.T.Not(cond)] = true
 		}
 		if last {
 			m.afterPrefix()
 		}
 		return c == 1
+	}
+	if m.proved[cond] {
+		m.decide("br", 1, 1)
+		return true
+	}
+	if m.proved[m.T.Not(cond)] {
+		m.decide("br", 1, 0)
+		return false
 	}
 	if m.model != nil {
 		v := m.model.Bool(cond)
@@ -247,6 +260,7 @@ func (m *Machine) branch(cond *term.Term) bool {
 				}
 			}
 			m.decide("br", 1, c) // implied by the path condition: not a fork
+			m.proved[side] = true
 			return v
 		}
 		m.decide("br", 2, c)
@@ -308,6 +322,10 @@ func (m *Machine) obligation(kind string, cond *term.Term, msg string, site stri
 	}
 	if m.inPrefix() {
 		// checked by the path this one was forked from
+		m.proved[cond] = true
+		return
+	}
+	if m.proved[cond] {
 		return
 	}
 	m.obligQ++
@@ -320,6 +338,7 @@ func (m *Machine) obligation(kind string, cond *term.Term, msg string, site stri
 		m.H.countOblig(res)
 		switch res {
 		case smt.Unsat:
+			m.proved[cond] = true
 			return
 		case smt.Unknown:
 			m.H.noteInconclusive(fmt.Sprintf("%s: solver answered unknown for obligation %q at %s (%s)", m.H.Name, msg, site, m.S.LastError))
